@@ -1,7 +1,7 @@
 /* C01/C11.path_signature_table.exact: bit0 <=> byte is in the path percent-encode set (needs encoding),
  * bit1 <=> '\', bit2 <=> '.', bit3 <=> '%'; nothing else. */
 void harness(void) {
-  uint8_t c;
+  NONDET(uint8_t, c);
   uint8_t t = G_path_signature_table.a[c];
   __CPROVER_assert(((t & 1) != 0) == (SPEC_IN_PATH(c) ? 1 : 0), "postcondition: bit0 <=> in path percent-encode set");
   __CPROVER_assert(((t & 2) != 0) == (c == '\\'), "postcondition: bit1 <=> backslash");
